@@ -1033,8 +1033,51 @@ class Tensor(Arr):
         return False
 
 
+class _StrAccessor:
+    """pandas-style `.str` accessor of a column of concrete strings (element-wise str methods)"""
+
+    def __init__(self, arr):
+        self.arr = arr
+
+    def _map(self, f, dtype):
+        a = self.arr.a
+        out = np.empty(a.shape, dtype=object)
+        for c in np.ndindex(*a.shape):
+            if not isinstance(a[c], str):
+                raise Inconclusive(".str accessor on a non-string element is not modelled")
+            out[c] = f(a[c])
+        return type(self.arr)(out, dtype=dtype)
+
+    def startswith(self, pat):
+        return self._map(lambda v: v.startswith(pat), "bool")
+
+    def endswith(self, pat):
+        return self._map(lambda v: v.endswith(pat), "bool")
+
+    def contains(self, pat, regex=False):
+        if regex:
+            raise Inconclusive(".str.contains(regex=True) is not modelled")
+        return self._map(lambda v: pat in v, "bool")
+
+    def upper(self):
+        return self._map(lambda v: v.upper(), self.arr.dtype)
+
+    def lower(self):
+        return self._map(lambda v: v.lower(), self.arr.dtype)
+
+    def strip(self, chars=None):
+        return self._map(lambda v: v.strip(chars), self.arr.dtype)
+
+    def len(self):
+        return self._map(lambda v: len(v), "int64")
+
+
 class NDArray(Arr):
     kind = "numpy"
+
+    @property
+    def str(self):
+        return _StrAccessor(self)
 
     @property
     def size(self):
